@@ -110,6 +110,95 @@ struct PushPayload {
 }
 
 #[derive(Deserialize)]
+struct EditPayload {
+    ruleset: Value,
+    ops: Vec<EditOp>,
+}
+
+#[derive(Deserialize)]
+struct EditOp {
+    op: String,
+    kind: String,
+    rule_id: String,
+    #[serde(default)]
+    after: Option<String>,
+    #[serde(default)]
+    before: Option<String>,
+    #[serde(default)]
+    enabled: bool,
+    #[serde(default)]
+    actions: Value,
+    #[serde(default)]
+    conditions: Value,
+    #[serde(default)]
+    pattern: String,
+}
+
+/// Applies a sequence of rules edits received from a client to one ruleset. A rejected edit must
+/// leave the ruleset as it was: otherwise the outcome starts with `LEAK:`.
+fn ruleset_edits(pl: EditPayload) -> String {
+    use ruma_common::push::{Action, NewConditionalPushRule, NewPatternedPushRule, NewPushRule, NewSimplePushRule, RuleKind};
+    let mut rs: Ruleset = match serde_json::from_value(pl.ruleset) {
+        Ok(r) => r,
+        Err(e) => return format!("err:{e}"),
+    };
+    let mut log = String::new();
+    for o in pl.ops.into_iter().take(64) {
+        let before_state = serde_json::to_string(&rs).unwrap_or_default();
+        let kind = match o.kind.as_str() {
+            "override" => RuleKind::Override,
+            "underride" => RuleKind::Underride,
+            "content" => RuleKind::Content,
+            "room" => RuleKind::Room,
+            "sender" => RuleKind::Sender,
+            _ => {
+                log.push('k');
+                continue;
+            }
+        };
+        let actions: Vec<Action> = serde_json::from_value(o.actions.clone()).unwrap_or_default();
+        let res: Result<(), String> = match o.op.as_str() {
+            "insert" => {
+                let rule = match kind {
+                    RuleKind::Override | RuleKind::Underride => {
+                        let conds: Vec<PushCondition> = serde_json::from_value(o.conditions.clone()).unwrap_or_default();
+                        let r = NewConditionalPushRule::new(o.rule_id.clone(), conds, actions);
+                        Some(if kind == RuleKind::Override { NewPushRule::Override(r) } else { NewPushRule::Underride(r) })
+                    }
+                    RuleKind::Content => Some(NewPushRule::Content(NewPatternedPushRule::new(o.rule_id.clone(), o.pattern.clone(), actions))),
+                    RuleKind::Room => o.rule_id.as_str().try_into().ok().map(|id| NewPushRule::Room(NewSimplePushRule::new(id, actions))),
+                    _ => o.rule_id.as_str().try_into().ok().map(|id| NewPushRule::Sender(NewSimplePushRule::new(id, actions))),
+                };
+                match rule {
+                    None => {
+                        log.push('i');
+                        continue;
+                    }
+                    Some(r) => rs.insert(r, o.after.as_deref(), o.before.as_deref()).map_err(|e| e.to_string()),
+                }
+            }
+            "remove" => rs.remove(kind, &o.rule_id).map_err(|e| e.to_string()),
+            "set_enabled" => rs.set_enabled(kind, &o.rule_id, o.enabled).map_err(|e| e.to_string()),
+            "set_actions" => rs.set_actions(kind, &o.rule_id, actions).map_err(|e| e.to_string()),
+            _ => {
+                log.push('o');
+                continue;
+            }
+        };
+        match res {
+            Ok(()) => log.push('+'),
+            Err(e) => {
+                log.push('-');
+                if serde_json::to_string(&rs).unwrap_or_default() != before_state {
+                    return format!("LEAK:{} {:?} on {:?} was rejected ({e}) but changed the ruleset", o.op, o.kind, o.rule_id);
+                }
+            }
+        }
+    }
+    format!("{log}:{:016x}", fnv(serde_json::to_string(&rs).unwrap_or_default().as_bytes()))
+}
+
+#[derive(Deserialize)]
 struct AuthPayload {
     version: u64,
     event: Value,
@@ -119,7 +208,7 @@ struct AuthPayload {
 pub const ENTRY_POINTS: &[&str] = &[
     "id_user", "id_room", "id_alias", "id_room_or_alias", "id_event", "id_server", "id_mxc", "id_key", "id_device_key", "id_misc", "uri_matrix_to", "uri_matrix", "json_timeline", "json_sync_timeline",
     "json_stripped", "json_to_device", "json_account_data", "json_ephemeral", "json_raw", "json_message_content", "json_ruleset", "json_push_condition", "json_canonical", "http_send_message", "http_get_state",
-    "http_join", "http_fed_send_join", "http_fed_transaction", "http_resp_sync", "http_resp_error", "hdr_content_disposition", "hdr_xmatrix", "hdr_retry_after", "push_get_match", "push_flatten", "sig_verify_json",
+    "http_join", "http_fed_send_join", "http_fed_transaction", "http_resp_sync", "http_resp_error", "hdr_content_disposition", "hdr_xmatrix", "hdr_retry_after", "push_get_match", "push_flatten", "push_ruleset_edits", "sig_verify_json",
     "sig_verify_event", "sig_sign", "sig_hashes_redact", "sig_from_der", "sig_base64", "auth_check", "html_parse", "html_sanitize_strict", "html_sanitize_compat", "html_remove_fallback",
 ];
 
@@ -234,6 +323,10 @@ pub fn call(ep: &str, p: &[u8]) -> String {
                     format!("{m:?}:{}", rs.get_actions(&raw, &ctx).len())
                 }
             },
+        },
+        "push_ruleset_edits" => match serde_json::from_slice::<EditPayload>(p) {
+            Err(_) => "badpayload".into(),
+            Ok(pl) => ruleset_edits(pl),
         },
         "push_flatten" => match utf8(p).map(|s| Raw::<Value>::from_json_string(s.to_owned())) {
             Some(Ok(raw)) => {
